@@ -29,6 +29,7 @@ type FuncProv struct {
 	Spec     string        // named spec / contract key
 	Fn       *ssa.Function // closure or function body
 	Bindings []Val         // closure bindings
+	Maybe    bool          // the spec applies only if conf/Spec(value) holds
 }
 
 type Val struct {
@@ -38,6 +39,7 @@ type Val struct {
 	Fs   []Val
 	Typ  types.Type
 	Prov *FuncProv
+	ID   string // identity of a struct value obtained by unboxing an interface value (the interface term)
 }
 
 func (v Val) sort() string { return kindSort(v.K) }
